@@ -30,6 +30,8 @@ struct Inner {
     seen: Arc<Mutex<Seen>>,
     steps: Arc<Mutex<Option<Vec<BStep>>>>,
     status: u16,
+    /// content-type the inner gRPC service answers with
+    ctype: &'static str,
 }
 
 impl Service<http::Request<tonic::body::Body>> for Inner {
@@ -43,6 +45,7 @@ impl Service<http::Request<tonic::body::Body>> for Inner {
         let seen = self.seen.clone();
         let steps = self.steps.lock().unwrap().take().unwrap_or_default();
         let status = self.status;
+        let ctype = self.ctype;
         Box::pin(async move {
             let (parts, body) = req.into_parts();
             let mut body = Box::pin(body);
@@ -72,7 +75,7 @@ impl Service<http::Request<tonic::body::Body>> for Inner {
             let (sb, _) = ScriptBody::new(steps);
             let mut resp = http::Response::new(sb);
             *resp.status_mut() = http::StatusCode::from_u16(status).unwrap();
-            resp.headers_mut().insert("content-type", HeaderValue::from_static("application/grpc"));
+            resp.headers_mut().insert("content-type", HeaderValue::from_static(ctype));
             resp.headers_mut().insert("x-inner", HeaderValue::from_static("1"));
             Ok(resp)
         })
@@ -84,7 +87,7 @@ pub fn run(cfg: &RunCfg) -> Ctx {
     all.merge(par_cases(cfg, "response", cfg.n(16_000, 16 * 600_000), || (), |_, rng, ctx, _| response_case(rng, ctx)));
     all.merge(par_cases(cfg, "request", cfg.n(16_000, 16 * 600_000), || (), |_, rng, ctx, _| request_case(rng, ctx)));
     all.merge(seq_cases(cfg, "matrix", 7 * 3 * 10, |_, ctx, i| matrix_case(ctx, i)));
-    for k in ["resp.text", "resp.binary", "resp.frame_split_across_chunks", "resp.trailers_with_colon", "resp.empty_trailers_block", "req.text", "req.binary", "req.text.cut_mod4.1", "req.text.cut_mod4.2", "req.text.cut_mod4.3", "req.cut_inside_prefix", "matrix.405", "matrix.400", "matrix.passthrough", "matrix.grpcweb"] {
+    for k in ["resp.text", "resp.binary", "resp.frame_split_across_chunks", "resp.trailers_with_colon", "resp.empty_trailers_block", "resp.inner_content_type_with_suffix", "req.text", "req.binary", "req.text.cut_mod4.1", "req.text.cut_mod4.2", "req.text.cut_mod4.3", "req.cut_inside_prefix", "matrix.405", "matrix.400", "matrix.passthrough", "matrix.grpcweb"] {
         all.floor(k, 5);
     }
     all
@@ -181,7 +184,12 @@ fn response_case(rng: &mut Rng, ctx: &mut Ctx) {
         ctx.count("resp.trailers_with_colon");
     }
     let seen = Arc::new(Mutex::new(Seen::default()));
-    let inner = Inner { seen: seen.clone(), steps: Arc::new(Mutex::new(Some(steps))), status: 200 };
+    // a gRPC service may label its responses with a subtype suffix
+    let inner_ctype = *rng.pick(&["application/grpc", "application/grpc", "application/grpc+proto", "application/grpc+json"]);
+    if inner_ctype != "application/grpc" {
+        ctx.count("resp.inner_content_type_with_suffix");
+    }
+    let inner = Inner { seen: seen.clone(), steps: Arc::new(Mutex::new(Some(steps))), status: 200, ctype: inner_ctype };
     let mut svc = GrpcWebLayer::new().layer(inner);
     let mut req = http::Request::new(http_body_util::Full::new(Bytes::new()));
     *req.method_mut() = Method::POST;
@@ -300,7 +308,7 @@ fn request_case(rng: &mut Rng, ctx: &mut Ctx) {
         ctx.count("req.cut_inside_prefix");
     }
     let seen = Arc::new(Mutex::new(Seen::default()));
-    let inner = Inner { seen: seen.clone(), steps: Arc::new(Mutex::new(Some(vec![]))), status: 200 };
+    let inner = Inner { seen: seen.clone(), steps: Arc::new(Mutex::new(Some(vec![]))), status: 200, ctype: "application/grpc" };
     let mut svc = GrpcWebLayer::new().layer(inner);
     let (sb, _) = ScriptBody::new(steps);
     let mut req = http::Request::new(sb);
@@ -392,7 +400,7 @@ fn matrix_case(ctx: &mut Ctx, i: u64) {
     let is_web = matches!(ctype, Some("application/grpc-web") | Some("application/grpc-web+proto") | Some("application/grpc-web-text") | Some("application/grpc-web-text+proto"));
     let seen = Arc::new(Mutex::new(Seen::default()));
     let inner_body = b"inner-body".to_vec();
-    let inner = Inner { seen: seen.clone(), steps: Arc::new(Mutex::new(Some(vec![BStep::Data(inner_body.clone())]))), status: 207 };
+    let inner = Inner { seen: seen.clone(), steps: Arc::new(Mutex::new(Some(vec![BStep::Data(inner_body.clone())]))), status: 207, ctype: "application/grpc" };
     let mut svc = GrpcWebLayer::new().layer(inner);
     let req_bytes = ref_frame(0, b"abc");
     let mut req = http::Request::new(http_body_util::Full::new(Bytes::from(req_bytes.clone())));
